@@ -215,6 +215,25 @@ def run_case(case):
                 if not (lo - 2 <= p * nmc <= hi + 2):
                     bad("marginal_icdf_monte_carlo", {"dim": dim, "p": p, "x": xv, "exact_marginal_cdf_at_x": b, "n_mc": nmc,
                                                      "binomial_band": [lo, hi]})
+    # ---------------- marginal_icdf of SEVERAL conditional dimensions queried one after the other on the same model object
+    # (Monte-Carlo path). Oracle: an independent large sample of the model (sampling itself is C07's subject);
+    # |F_N(x) - p| <= DKW(N) + DKW(n_mc) + 1/n_mc  at error probability 1e-12 each
+    seq = case.get("icdf_sequence", [])
+    if seq:
+        N = 400000
+        big = np.asarray(model.draw_sample(N, random_state=77), dtype=float)
+        ps = np.array([0.1, 0.5, 0.9])
+        nmc = max(int((1 / min(ps.min(), 1 - ps.max())) * 100), 100000)
+        tol = stats.dkw_eps(N) + stats.dkw_eps(nmc) + 1.0 / nmc
+        for rnd in (0, 1):          # second round: the same queries again (nothing may have gone stale)
+            for dim in seq:
+                np.random.seed(case_seed(case, 17 + rnd))
+                xi = np.asarray(model.marginal_icdf(ps, dim), dtype=float)
+                neval += 1
+                Fh = np.array([np.mean(big[:, dim] <= xv) for xv in xi])
+                if xi.shape != ps.shape or np.any(np.abs(Fh - ps) > tol):
+                    bad("marginal_icdf_sequence", {"dim": dim, "sequence": seq, "round": rnd, "p": ps, "x": xi, "empirical_cdf_of_independent_sample": Fh,
+                                                  "tolerance": tol})
     moved = any(c is not None for c in cond_on)
     return {"viol": viol, "n": neval, "nontrivial": neval if moved else 0, "outcomes": [f"{n_dim}d:{len(viol)}"], "count": count}
 
@@ -260,6 +279,9 @@ def main(ctx):
                 c["cdf_points"] = [[0.5, 0.6, 0.4]] if si in (1, 3, 5) else []
             if q and ti > 0:
                 c["total"] = si % 2 == 0
+            cd = [d for d in range(3) if cond[d] is not None]
+            if ti == 0 and cd:
+                c["icdf_sequence"] = cd if si % 2 == 0 else cd[::-1]
             if ti == 0 or not q:
                 # every conditional dimension of every structure (quick: first family triple)
                 c["marginal_pdf_dims"] = [d for d in range(3) if cond[d] is not None and d not in c.get("marginal_dims", [])]
